@@ -11,10 +11,10 @@ CONSTANTS
   IssueMax = 3
   MaxT = 8
   MaxProgress = TRUE
-  FixDrain = FALSE
-  FixDrop = FALSE
-  AllowDown = FALSE
+  FixDrain = TRUE
+  FixDrop = TRUE
+  AllowDown = TRUE
   MaxNextId = 0
-INVARIANTS NoWedge
-
+INVARIANTS TypeOK Routing AckMatches NoBadAck NoPanic NoWedge LockFree NoStuckAtEnd WindowSuccess AcceptBounded
+PROPERTIES DownMeansNoNewAck DialsReturn AcceptsReturn
 CHECK_DEADLOCK FALSE
